@@ -9,7 +9,6 @@ import (
 	"fmt"
 	"math/rand"
 	"net"
-	"os"
 	"sync"
 	"sync/atomic"
 	"time"
@@ -725,9 +724,6 @@ func monitorMConn(o *rec) {
 		return
 	}
 	n := lib.Pick(120, 2500)
-	if v := os.Getenv("C20_DEBUG_SESSIONS"); v != "" {
-		fmt.Sscan(v, &n)
-	}
 	lib.Parallel(n, lib.Pick(24, 32), func(i int) {
 		runSession(o, genSession(i))
 	})
